@@ -731,6 +731,16 @@ func genC06v6(o *Out, rng *rand.Rand, tier string) {
 			fix6(o, append([]byte{7, 1, 2, 3, 0, byte(code), 0, byte(len(p))}, p...), "dotted-labels")
 		}
 	}
+	// every option type with NUL bytes after a valid body (string-valued options must not eat them one decode at a time)
+	for _, c := range v6Known {
+		for k := 1; k <= 3; k++ {
+			body := append(randOpt6(rng, c, 1).ToBytes(), make([]byte, k)...)
+			if len(body) < 65000 {
+				fix6(o, append([]byte{7, 1, 2, 3, byte(c >> 8), byte(c), byte(len(body) >> 8), byte(len(body))}, body...), "trailing-nuls")
+			}
+		}
+		fix6(o, []byte{7, 1, 2, 3, byte(c >> 8), byte(c), 0, 3, 0, 0, 0}, "trailing-nuls")
+	}
 	for i := 0; i < n; i++ {
 		switch i % 3 {
 		case 0:
